@@ -372,6 +372,28 @@ func c04Inputs(c *fw.Ctx, i int) []hostileInput {
 					}
 				}
 			}
+			// the connect object itself: every property lal (or any server) looks at, with every value type
+			if state == 2 {
+				for _, key := range []string{"app", "flashVer", "swfUrl", "tcUrl", "fpad", "capabilities", "audioCodecs", "videoCodecs", "videoFunction", "pageUrl", "objectEncoding", "type", "flashver", "fourCcList"} {
+					for _, a := range alts {
+						pairs := []ref.AmfPair{{Key: "app", Val: ref.AmfStr("live")}, {Key: "tcUrl", Val: ref.AmfStr("rtmp://127.0.0.1/live")}, {Key: "objectEncoding", Val: ref.AmfNum(0)}}
+						replaced := false
+						for x := range pairs {
+							if pairs[x].Key == key {
+								pairs[x].Val, replaced = a, true
+							}
+						}
+						if !replaced {
+							pairs = append(pairs, ref.AmfPair{Key: key, Val: a})
+						}
+						s := newScript().prefix(state, name)
+						s.msg(3, 20, 0, 0, ref.AmfEncodeAll(ref.AmfStr("connect"), ref.AmfNum(1), ref.AmfObj(pairs...)))
+						// follow up as a normal client would
+						s.msg(3, 20, 0, 0, ref.AmfEncodeAll(ref.AmfStr("createStream"), ref.AmfNum(2), ref.AmfNul()))
+						add("command/connect/property-type/"+key, state, s)
+					}
+				}
+			}
 			// raw AMF oddities as command bodies
 			for _, b := range [][]byte{
 				{2, 0xff, 0xff, 'a'}, {0x0c, 0xff, 0xff, 0xff, 0xff}, {0x0a, 0xff, 0xff, 0xff, 0xff, 5, 5, 5}, {8, 0xff, 0xff, 0xff, 0xff, 0, 1, 'a', 5},
